@@ -38,7 +38,11 @@ def _m_f5(v, sess):
     return v.get('ctx', {}).get('callback') == 'CBALIAS'
 
 
-MATCHERS = {'F1': _m_f1, 'F2': _m_f2, 'F3': _m_f3, 'F4': _m_f4, 'F5': _m_f5}
+def _m_f6(v, sess):
+    return v.get('ctx', {}).get('lanczos_lost_orthogonality') is True
+
+
+MATCHERS = {'F6': _m_f6, 'F1': _m_f1, 'F2': _m_f2, 'F3': _m_f3, 'F4': _m_f4, 'F5': _m_f5}
 
 
 def match(v, sess):
